@@ -236,7 +236,30 @@ def run(chk, F, G_):
            "%s:%s" % (clk[0]["file"] if clk else ctor["file"], clk[0]["line"] if clk else ctor["line"]))
     # Document::accept really dispatches visitVariable for template locals
     vt_ = [f for f in F.functions.values() if f["q"].endswith("visitTemplate") and (f.get("file") or "").endswith("document.cpp")]
-    disp = any(any(c.get("name") in ("visit", "visitVariable") for c in calls(f["body"])) for f in vt_)
+    def reaches_visit_variable(f, depth=0, seen=None):
+        """visitTemplate calls visitVariable for the template's frame - itself, or through file-local helpers that it calls
+        or hands over as function pointers (`visitSymbols(visitor, t.frame, &visitDeclaration)`)"""
+        seen = seen if seen is not None else set()
+        if f["q"] in seen or depth > 3:
+            return False
+        seen.add(f["q"])
+        if any(c.get("name") == "visitVariable" for c in calls(f["body"])):
+            return True
+        nxt = set()
+        for c in calls(f["body"]):
+            if c.get("fn"):
+                nxt.add(c["fn"])
+            for a in c.get("args", []):
+                for x in walk(a):
+                    if x.get("k") == "ref" and x.get("dk") == "func":
+                        nxt.add(x.get("q") or x.get("name"))
+        for q in nxt:
+            for t in F.fns(q):
+                if t.get("body") is not None and (t.get("file") or "").endswith("document.cpp") and \
+                        reaches_visit_variable(t, depth + 1, seen):
+                    return True
+        return False
+    disp = any(reaches_visit_variable(f) for f in vt_)
     chk.ob(rid, "variables|dispatch", disp, "Document::accept does not visit the variables of templates",
            "src/document.cpp")
     # document flags
